@@ -66,7 +66,7 @@ pub use debug::DebugTracer;
 static REGEX_CACHE: Lazy<DashMap<String, Regex>> = Lazy::new(DashMap::new);
 
 /// Type alias for split cache keys combining input hash and separator.
-type SplitCacheKey = (u64, String);
+type SplitCacheKey = (String, String);
 /// Type alias for split cache values containing the split result.
 type SplitCacheValue = Vec<String>;
 
@@ -216,14 +216,9 @@ fn ascii_reverse(s: &str) -> Option<String> {
 /// - Repeated template applications with identical inputs
 /// - Pipeline operations that split the same data multiple times
 pub(crate) fn get_cached_split(input: &str, separator: &str) -> Vec<String> {
-    use std::collections::hash_map::DefaultHasher;
-    use std::hash::{Hash, Hasher};
-
-    // Create a hash of the input for cache key
-    let mut hasher = DefaultHasher::new();
-    input.hash(&mut hasher);
-    let input_hash = hasher.finish();
-    let cache_key = (input_hash, separator.to_string());
+    // Key by the input itself: a 64-bit hash of it is not injective, and a
+    // collision would serve another input's parts.
+    let cache_key = (input.to_string(), separator.to_string());
 
     // Try to get from cache first
     if let Some(cached_split) = SPLIT_CACHE.get(&cache_key) {
